@@ -49,6 +49,7 @@ HELPERS = {  # helper type -> features under which the documentation uses it
     "BinaryError": ["add", "mul"], "WrongVariantError": ["add", "mul"], "UnitError": ["add", "mul", "not"], "FromStrError": ["from_str"],
     "TryFromReprError": ["try_from"], "TryIntoError": ["try_into"], "TryUnwrapError": ["try_unwrap"],
 }
+GENERIC_HELPERS = ("TryFromReprError", "TryIntoError", "TryUnwrapError")
 FEATURES = sorted(DERIVES)
 
 
@@ -231,6 +232,50 @@ def run_config(args):
     if rc != 0 and not unresolved and not other:
         out["probe_infra"] = err[-1500:]
     out["exports"] = sorted(set(p for p, _ in probe_names()) - unresolved)
+    # (3b) the helper types that are exported behave as under `full`: Debug + Display always, std's Error with `std`
+    out["helper_trait_errors"] = []
+    present = [h for h in HELPERS if "derive_more::%s" % h in out["exports"]]
+    if present:
+        tdir2 = os.path.join(base, "traits%d" % slot)
+        feats = ", ".join('"%s"' % f for f in list(cfg) + (["std"] if std else []))
+        common.write_if_changed(os.path.join(tdir2, "Cargo.toml"), """[package]
+name = "c20_traits"
+version = "0.0.0"
+edition = "2021"
+
+[workspace]
+
+[dependencies]
+derive_more = { path = "%s", default-features = false, features = [%s] }
+""" % (common.REPO, feats))
+        lock = os.path.join(common.REPO, "Cargo.lock")
+        if not os.path.exists(os.path.join(tdir2, "Cargo.lock")) and os.path.exists(lock):
+            shutil.copy(lock, os.path.join(tdir2, "Cargo.lock"))
+        lines = ["#![no_std]", "#![allow(dead_code)]", "#[cfg(feature = \"never\")] extern crate std;",
+                 "fn fmt_traits<T: ::core::fmt::Debug + ::core::fmt::Display>() {}"]
+        if std:
+            lines = ["#![allow(dead_code)]", "fn fmt_traits<T: ::core::fmt::Debug + ::core::fmt::Display>() {}", "fn std_error<T: ::std::error::Error>() {}"]
+        lines.append("pub fn probe() {")
+        for h in present:
+            ty = "derive_more::%s%s" % (h, "<u8>" if h in GENERIC_HELPERS else "")
+            lines.append("    fmt_traits::<%s>(); // %s" % (ty, h))
+            if std:
+                lines.append("    std_error::<%s>(); // %s" % (ty, h))
+        lines.append("}")
+        common.write_if_changed(os.path.join(tdir2, "src", "lib.rs"), "\n".join(lines) + "\n")
+        rc, diags, arts, err = common.cargo_json(tdir2, ("check",), jobs=2, target=tdir, timeout=1800)
+        for d in diags:
+            if d.get("level") != "error" or d.get("message", "").startswith(("aborting", "could not compile")):
+                continue
+            who = ""
+            for sp in d.get("spans", []):
+                for t in sp.get("text") or []:
+                    mm = re.search(r"// (\w+)$", t.get("text", ""))
+                    if mm:
+                        who = mm.group(1)
+            out["helper_trait_errors"].append((who, d.get("message", "")[:300]))
+        if rc != 0 and not out["helper_trait_errors"]:
+            out["probe_infra"] = err[-1500:]
     # (4) the supported-items corpus restricted to this configuration's derives must compile in isolation
     out["corpus_items"] = 0
     out["corpus_errors"] = []
@@ -327,6 +372,12 @@ def run(ctx):
                     ctx.bump("configs_without_own_test_program")
         if r.get("probe_infra"):
             raise Inconclusive("probe crate failed under %s: %s" % (name, r["probe_infra"][-500:]))
+        for who, msg in r.get("helper_trait_errors", []):
+            ctx.violate("helper-traits:%s:%s" % (who, "std" if std else "no_std"),
+                        "under %s the helper type derive_more::%s lacks a trait impl it has under `full`: %s" % (name, who, msg), config=name, helper=who)
+            break
+        if r.get("helper_trait_errors") == []:
+            ctx.bump("helper_trait_probes")
         if r["probe_other_errors"]:
             ctx.violate("probe-build:%s" % name, "a crate importing derive_more does not build under %s: %s" % (name, r["probe_other_errors"]), config=name)
         ctx.bump("corpus_items_compiled_in_isolation", r.get("corpus_items", 0))
